@@ -12,6 +12,7 @@ use vstd::utf8::*;
 use escfn_::{_escape, spec_escape, escapable, cow_str_bytes, lemma_escaped_clean, ref_tail_byte, esc_one};
 
 //@extract se::QuoteLevel | src/se/mod.rs :: enum QuoteLevel | serves=C13 features=serialize
+ #[derive(Clone, Copy)]
  pub enum QuoteLevel {
     /// Performs escaping, escape all characters that could have special meaning
     /// in the XML. This mode is compatible with SGML specification.
@@ -54,6 +55,7 @@ use escfn_::{_escape, spec_escape, escapable, cow_str_bytes, lemma_escaped_clean
 }
 //@end
 //@extract simple_type::QuoteTarget | src/se/simple_type.rs :: enum QuoteTarget | serves=C13 features=serialize
+ #[derive(Clone, Copy)]
  pub enum QuoteTarget {
     /// Escape data for a text content. No additional escape symbols
     Text,
